@@ -1,2 +1,518 @@
 From OlaBase Require Import Bytes.
 From C05 Require Import Gen Model.
+From Coq Require Import ZifyBool ZifyN ZifyNat.
+Local Open Scope N_scope.
+Ltac Zify.zify_post_hook ::= Z.div_mod_to_equations.
+
+(* ------------------------------------------------------------------ header split *)
+Lemma split_header_none bs : split_header bs = None -> len bs < 23.
+Proof.
+  unfold split_header.
+  do 23 (destruct bs as [|? bs]; [intros _; rewrite ?len_cons, len_nil; lia|]).
+  discriminate.
+Qed.
+
+Lemma split_header_some bs h rest :
+  split_header bs = Some (h, rest) ->
+  bs = [h_ssc h; h_ml h] ++ h_dst h ++ h_src h ++ [h_tn h; h_port h; h_mc h] ++ h_sub h ++
+       [h_cc h] ++ h_pid h ++ [h_pdl h] ++ rest /\
+  length (h_dst h) = 6%nat /\ length (h_src h) = 6%nat /\ length (h_sub h) = 2%nat /\
+  length (h_pid h) = 2%nat /\ len bs = 23 + len rest.
+Proof.
+  unfold split_header.
+  do 23 (destruct bs as [|? bs]; [discriminate|]).
+  intros H; inversion H; subst; clear H. cbn [h_ssc h_ml h_dst h_src h_tn h_port h_mc h_sub h_cc h_pid h_pdl app length].
+  repeat split; try reflexivity. rewrite !len_cons. lia.
+Qed.
+
+Lemma split_header_rd bs h rest :
+  split_header bs = Some (h, rest) ->
+  rd bs 0 = Some (h_ssc h) /\ rd bs 1 = Some (h_ml h) /\ rd bs 22 = Some (h_pdl h) /\
+  rd bs 19 = Some (h_cc h).
+Proof.
+  unfold split_header.
+  do 23 (destruct bs as [|? bs]; [discriminate|]).
+  intros H; inversion H; subst; clear H. repeat split.
+Qed.
+
+(* ------------------------------------------------------------------ verify *)
+Definition verify_ok_spec (bs : list N) : Prop :=
+  exists h rest hi lo,
+    split_header bs = Some (h, rest) /\
+    h_ssc h = SUB_START_CODE /\
+    24 <= h_ml h /\ h_ml h + 1 <= len bs /\
+    rd bs (h_ml h - 1) = Some hi /\ rd bs (h_ml h) = Some lo /\
+    join16 hi lo = u16 (START_CODE + sum_bytes (take (h_ml h - 1) bs)) /\
+    h_pdl h + 25 <= len bs.
+
+Lemma usub32_small a b : b <= a -> a < 4294967296 -> usub32 a b = a - b.
+Proof. unfold usub32, u32; intros. lia. Qed.
+
+Lemma verify_cases bs :
+  bytes_ok bs = true -> len bs < 4294967296 ->
+  match verify bs with
+  | VOob => False
+  | VReject _ => True
+  | VOk => verify_ok_spec bs
+  end.
+Proof.
+  intros Hb Hl. unfold verify.
+  destruct (len bs <? HEADER_SIZE) eqn:E0; [exact I|].
+  unfold HEADER_SIZE in *.
+  destruct (split_header bs) as [[h rest]|] eqn:Es.
+  2:{ apply split_header_none in Es. lia. }
+  destruct (split_header_rd _ _ _ Es) as (R0 & R1 & R22 & _).
+  pose proof (bytes_ok_rd _ _ _ Hb R1) as Hml.
+  destruct (negb (h_ssc h =? SUB_START_CODE)) eqn:E1; [exact I|].
+  destruct (len bs <? h_ml h + 1) eqn:E2; [exact I|].
+  destruct (h_ml h <? 23 + 1) eqn:E3; [exact I|].
+  assert (usub32 (h_ml h) 1 = h_ml h - 1) as Hu by (apply usub32_small; lia).
+  rewrite Hu.
+  unfold checksum_rd.
+  destruct (h_ml h - 1 <=? len bs) eqn:E4; [|lia].
+  destruct (rd_lt_some bs (h_ml h - 1)) as [hi Hhi]; [lia|].
+  destruct (rd_lt_some bs (h_ml h)) as [lo Hlo]; [lia|].
+  rewrite Hhi, Hlo.
+  destruct (negb (join16 hi lo =? u16 (START_CODE + sum_bytes (take (h_ml h - 1) bs)))) eqn:E5; [exact I|].
+  assert (usub32 (len bs) 23 = len bs - 23) as Hu2 by (apply usub32_small; lia).
+  rewrite Hu2.
+  destruct (usub32 (len bs - 23) 2 <? h_pdl h) eqn:E6; [exact I|].
+  exists h, rest, hi, lo.
+  assert (25 <= len bs) by lia.
+  rewrite usub32_small in E6 by lia.
+  repeat split; try assumption; lia.
+Qed.
+
+Lemma verify_not_oob bs : bytes_ok bs = true -> len bs < 4294967296 -> verify bs <> VOob.
+Proof. intros Hb Hl E. pose proof (verify_cases bs Hb Hl) as H. rewrite E in H. exact H. Qed.
+
+Lemma verify_ok bs : bytes_ok bs = true -> len bs < 4294967296 -> verify bs = VOk -> verify_ok_spec bs.
+Proof. intros Hb Hl E. pose proof (verify_cases bs Hb Hl) as H. rewrite E in H. exact H. Qed.
+
+Lemma fields_after_verify bs :
+  bytes_ok bs = true -> len bs < 4294967296 -> verify bs = VOk -> exists c, fields bs = Some c.
+Proof.
+  intros Hb Hl E. destruct (verify_ok bs Hb Hl E) as (h & rest & hi & lo & Es & _ & _ & _ & _ & _ & _ & Hp).
+  unfold fields. rewrite Es.
+  destruct (split_header_some _ _ _ Es) as (_ & _ & _ & _ & _ & Hlen).
+  destruct (h_pdl h <=? len rest) eqn:E1; [eauto|lia].
+Qed.
+
+(* ------------------------------------------------------------------ totality *)
+Ltac total_tac Hb Hl :=
+  let E := fresh "E" in
+  destruct (verify _) eqn:E;
+  [ exfalso; exact (verify_not_oob _ Hb Hl E)
+  | discriminate
+  | let c := fresh "c" in let Hc := fresh "Hc" in
+    destruct (fields_after_verify _ Hb Hl E) as [c Hc]; rewrite Hc ].
+
+Lemma inflate_request_total bs :
+  bytes_ok bs = true -> len bs < 4294967296 -> inflate_request bs <> Oob.
+Proof.
+  intros Hb Hl. unfold inflate_request. total_tac Hb Hl.
+  destruct (_ || _); discriminate.
+Qed.
+Lemma inflate_disc_request_total bs :
+  bytes_ok bs = true -> len bs < 4294967296 -> inflate_disc_request bs <> Oob.
+Proof.
+  intros Hb Hl. unfold inflate_disc_request. total_tac Hb Hl.
+  destruct (_ =? _); discriminate.
+Qed.
+Lemma inflate_disc_response_total bs :
+  bytes_ok bs = true -> len bs < 4294967296 -> inflate_disc_response bs <> Oob.
+Proof.
+  intros Hb Hl. unfold inflate_disc_response. total_tac Hb Hl.
+  destruct (_ =? _); discriminate.
+Qed.
+Lemma inflate_response_total rq bs :
+  bytes_ok bs = true -> len bs < 4294967296 -> inflate_response rq bs <> Oob.
+Proof.
+  intros Hb Hl. unfold inflate_response. total_tac Hb Hl.
+  destruct (match rq with Some r => _ | None => None end); [discriminate|].
+  destruct (_ <? _); [discriminate|]. destruct (_ || _); discriminate.
+Qed.
+Lemma inflate_total bs :
+  bytes_ok bs = true -> len bs < 4294967296 -> inflate bs <> Oob.
+Proof.
+  intros Hb Hl. unfold inflate.
+  destruct (len bs <? 20) eqn:E0; [discriminate|].
+  destruct (rd_lt_some bs 19) as [cc Hcc]; [lia|]. rewrite Hcc.
+  destruct (_ || _); [apply inflate_request_total; assumption|].
+  destruct (_ || _); [apply inflate_response_total; assumption|].
+  destruct (_ =? _); [apply inflate_disc_request_total; assumption|].
+  destruct (_ =? _); [apply inflate_disc_response_total; assumption|discriminate].
+Qed.
+Lemma from_frame_total rq fr :
+  bytes_ok fr = true -> len fr < 4294967296 -> from_frame rq fr <> Oob.
+Proof.
+  intros Hb Hl. unfold from_frame. destruct fr as [|s [|x r]]; try discriminate.
+  apply inflate_response_total.
+  - cbn [bytes_ok forallb] in Hb. apply andb_prop in Hb. tauto.
+  - rewrite len_cons in Hl. lia.
+Qed.
+
+(* ------------------------------------------------------------------ acceptance *)
+Lemma inflate_request_ok bs c : inflate_request bs = Ok c -> verify bs = VOk /\ fields bs = Some c.
+Proof.
+  unfold inflate_request. destruct (verify bs); try discriminate.
+  destruct (fields bs) as [c'|]; try discriminate. destruct (_ || _); try discriminate.
+  intros H; inversion H; auto.
+Qed.
+Lemma inflate_disc_request_ok bs c : inflate_disc_request bs = Ok c -> verify bs = VOk /\ fields bs = Some c.
+Proof.
+  unfold inflate_disc_request. destruct (verify bs); try discriminate.
+  destruct (fields bs) as [c'|]; try discriminate. destruct (_ =? _); try discriminate.
+  intros H; inversion H; auto.
+Qed.
+Lemma inflate_disc_response_ok bs c : inflate_disc_response bs = Ok c -> verify bs = VOk /\ fields bs = Some c.
+Proof.
+  unfold inflate_disc_response. destruct (verify bs); try discriminate.
+  destruct (fields bs) as [c'|]; try discriminate. destruct (_ =? _); try discriminate.
+  intros H; inversion H; auto.
+Qed.
+Lemma inflate_response_ok rq bs c : inflate_response rq bs = Ok c -> verify bs = VOk /\ fields bs = Some c.
+Proof.
+  unfold inflate_response. destruct (verify bs); try discriminate.
+  destruct (fields bs) as [c'|]; try discriminate.
+  destruct (match rq with Some r => _ | None => None end); try discriminate.
+  destruct (_ <? _); try discriminate. destruct (_ || _); try discriminate.
+  intros H; inversion H; auto.
+Qed.
+Lemma inflate_ok bs c : inflate bs = Ok c -> verify bs = VOk /\ fields bs = Some c.
+Proof.
+  unfold inflate. destruct (len bs <? 20); try discriminate.
+  destruct (rd bs 19); try discriminate.
+  destruct (_ || _); [apply inflate_request_ok|].
+  destruct (_ || _); [apply inflate_response_ok|].
+  destruct (_ =? _); [apply inflate_disc_request_ok|].
+  destruct (_ =? _); [apply inflate_disc_response_ok|discriminate].
+Qed.
+
+(* ------------------------------------------------------------------ big-endian lemmas *)
+Lemma be_bytes_length k x : length (be_bytes k x) = k.
+Proof. revert x; induction k as [|k IH]; intros x; cbn [be_bytes]; [reflexivity|]. rewrite app_length, IH. cbn. lia. Qed.
+
+Lemma be_val_app l x : be_val (l ++ [x]) = be_val l * 256 + x.
+Proof. unfold be_val. rewrite fold_left_app. reflexivity. Qed.
+
+Lemma be_val_bytes k x : x < 256 ^ N.of_nat k -> be_val (be_bytes k x) = x.
+Proof.
+  revert x; induction k as [|k IH]; intros x Hx.
+  - cbn in *. unfold be_val; cbn. lia.
+  - cbn [be_bytes]. rewrite be_val_app. rewrite IH.
+    + lia.
+    + rewrite Nat2N.inj_succ, N.pow_succ_r' in Hx. lia.
+Qed.
+
+Lemma be_bytes_ok k x : bytes_ok (be_bytes k x) = true.
+Proof.
+  revert x; induction k as [|k IH]; intros x; cbn [be_bytes]; [reflexivity|].
+  rewrite bytes_ok_app, IH. cbn. unfold byte_ok. lia.
+Qed.
+
+Lemma be_bytes_val l : bytes_ok l = true -> be_bytes (length l) (be_val l) = l.
+Proof.
+  induction l as [|x l IH] using rev_ind; intros H; [reflexivity|].
+  rewrite bytes_ok_app in H. apply andb_prop in H as [Hl Hx].
+  cbn in Hx. unfold byte_ok in Hx.
+  rewrite app_length. cbn [length]. rewrite Nat.add_comm. cbn [Nat.add be_bytes].
+  rewrite be_val_app.
+  replace ((be_val l * 256 + x) / 256) with (be_val l) by lia.
+  replace ((be_val l * 256 + x) mod 256) with x by lia.
+  rewrite IH by assumption. reflexivity.
+Qed.
+
+(* ------------------------------------------------------------------ verify, intro form *)
+Lemma verify_intro bs h rest hi lo :
+  split_header bs = Some (h, rest) ->
+  h_ssc h = SUB_START_CODE -> 24 <= h_ml h -> h_ml h < 256 -> h_ml h + 1 <= len bs ->
+  len bs < 4294967296 ->
+  rd bs (h_ml h - 1) = Some hi -> rd bs (h_ml h) = Some lo ->
+  join16 hi lo = u16 (START_CODE + sum_bytes (take (h_ml h - 1) bs)) ->
+  h_pdl h + 25 <= len bs ->
+  verify bs = VOk.
+Proof.
+  intros Es Hssc Hml Hml2 Hlen Hl Hhi Hlo Hck Hpdl. unfold verify. unfold HEADER_SIZE.
+  destruct (len bs <? 23) eqn:E0; [lia|]. rewrite Es.
+  rewrite Hssc, N.eqb_refl. cbn [negb].
+  destruct (len bs <? h_ml h + 1) eqn:E2; [lia|].
+  destruct (h_ml h <? 23 + 1) eqn:E3; [lia|].
+  rewrite usub32_small by lia. unfold checksum_rd.
+  destruct (h_ml h - 1 <=? len bs) eqn:E4; [|lia].
+  rewrite Hhi, Hlo, Hck, N.eqb_refl. cbn [negb].
+  rewrite (usub32_small (len bs) 23) by lia. rewrite usub32_small by lia.
+  destruct (len bs - 23 - 2 <? h_pdl h) eqn:E6; [lia|reflexivity].
+Qed.
+
+(* ------------------------------------------------------------------ pack then inflate *)
+Definition packed_hdr (o : opts) (c : cmd) : hdr :=
+  {| h_ssc := o_ssc o;
+     h_ml := match o_ml o with Some m => m | None => u8 (HEADER_SIZE + len (c_data c) + 1) end;
+     h_dst := be_bytes 6 (c_dst c); h_src := be_bytes 6 (c_src c); h_tn := c_tn c;
+     h_port := c_port c; h_mc := c_mc c; h_sub := be_bytes 2 (c_sub c); h_cc := c_cc c;
+     h_pid := be_bytes 2 (c_pid c); h_pdl := u8 (len (c_data c)) |}.
+
+Lemma split_header_pack o c tail :
+  split_header (header o c ++ tail) = Some (packed_hdr o c, tail).
+Proof. unfold header, packed_hdr. cbn [be_bytes app]. reflexivity. Qed.
+
+Lemma header_len o c : len (header o c) = 23.
+Proof.
+  unfold header. rewrite !len_app. unfold len at 2 3 5 7. rewrite !be_bytes_length.
+  cbn. reflexivity.
+Qed.
+
+Lemma wf_cmd_spec c : wf_cmd c = true ->
+  c_dst c < 2^48 /\ c_src c < 2^48 /\ c_tn c < 256 /\ c_port c < 256 /\ c_mc c < 256 /\
+  c_sub c < 65536 /\ c_cc c < 256 /\ c_pid c < 65536 /\ bytes_ok (c_data c) = true /\ len (c_data c) <= 231.
+Proof.
+  unfold wf_cmd, MAX_PARAM_DATA_LENGTH. intros H.
+  repeat (apply andb_prop in H as [H ?]). repeat split; try lia; assumption.
+Qed.
+
+Lemma header_bytes_ok c : wf_cmd c = true -> bytes_ok (header default_opts c) = true.
+Proof.
+  intros H. apply wf_cmd_spec in H as (? & ? & ? & ? & ? & ? & ? & ? & ? & ?).
+  unfold header. rewrite !bytes_ok_app, !be_bytes_ok.
+  cbn [bytes_ok forallb default_opts o_ssc o_ml]. unfold byte_ok, u8, SUB_START_CODE.
+  repeat (apply andb_true_intro; split); try reflexivity; lia.
+Qed.
+
+Lemma pack_verify_fields c :
+  wf_cmd c = true ->
+  exists bs, pack c = Some bs /\ verify bs = VOk /\ fields bs = Some c /\
+             rd bs 19 = Some (c_cc c) /\ len bs = 25 + len (c_data c) /\ bytes_ok bs = true.
+Proof.
+  intros Hwf. pose proof (header_bytes_ok c Hwf) as Hhb.
+  pose proof (wf_cmd_spec c Hwf) as (Hd & Hs & Htn & Hport & Hmc & Hsub & Hcc8 & Hpid & Hdat & Hn).
+  unfold pack, pack_o. unfold MAX_PARAM_DATA_LENGTH.
+  destruct (231 <? len (c_data c)) eqn:E0; [lia|].
+  cbn [default_opts o_ck].
+  set (body := header default_opts c ++ c_data c).
+  set (ck := u16 (START_CODE + sum_bytes body)).
+  exists (body ++ [ck / 256; ck mod 256]). split; [reflexivity|].
+  assert (Hbl : len body = 23 + len (c_data c)) by (unfold body; rewrite len_app, header_len; lia).
+  assert (Hsplit : split_header (body ++ [ck / 256; ck mod 256]) =
+                   Some (packed_hdr default_opts c, c_data c ++ [ck / 256; ck mod 256])).
+  { unfold body. rewrite <- app_assoc. apply split_header_pack. }
+  assert (Hml : h_ml (packed_hdr default_opts c) = 24 + len (c_data c)).
+  { cbn [packed_hdr h_ml default_opts o_ml]. unfold u8, HEADER_SIZE. lia. }
+  assert (Hlen : len (body ++ [ck / 256; ck mod 256]) = 25 + len (c_data c)).
+  { rewrite len_app, Hbl. change (len [ck / 256; ck mod 256]) with 2. lia. }
+  assert (Hck16 : ck < 65536) by (unfold ck; apply u16_lt).
+  split; [|split; [|split; [|split]]].
+  - eapply verify_intro with (hi := ck / 256) (lo := ck mod 256); try exact Hsplit.
+    + reflexivity.
+    + lia.
+    + lia.
+    + lia.
+    + lia.
+    + rewrite Hml. replace (24 + len (c_data c) - 1) with (len body) by lia.
+      rewrite rd_app_r by lia. rewrite N.sub_diag. reflexivity.
+    + rewrite Hml. rewrite rd_app_r by lia.
+      replace (24 + len (c_data c) - len body) with 1 by lia. reflexivity.
+    + rewrite Hml. replace (24 + len (c_data c) - 1) with (len body) by lia.
+      rewrite take_app_exact. unfold join16. fold ck. lia.
+    + cbn [packed_hdr h_pdl]. unfold u8. lia.
+  - unfold fields. rewrite Hsplit. cbn [packed_hdr h_pdl h_dst h_src h_tn h_port h_mc h_sub h_cc h_pid].
+    rewrite u8_id by lia.
+    destruct (len (c_data c) <=? len (c_data c ++ [ck / 256; ck mod 256])) eqn:E1.
+    2:{ rewrite len_app in E1. lia. }
+    rewrite take_app_exact.
+    rewrite !be_val_bytes; [destruct c; reflexivity| | | |]; cbn; lia.
+  - destruct (split_header_rd _ _ _ Hsplit) as (_ & _ & _ & R). exact R.
+  - exact Hlen.
+  - unfold body. rewrite !bytes_ok_app, Hhb, Hdat. cbn. unfold byte_ok. lia.
+Qed.
+
+(* a well-formed command with a legal class; GET/SET responses also need a legal response type *)
+Definition wf_rt (c : cmd) : bool :=
+  wf_cmd c && is_cc (c_cc c) &&
+  (if (c_cc c =? GET_COMMAND_RESPONSE) || (c_cc c =? SET_COMMAND_RESPONSE)
+   then c_port c <=? ACK_OVERFLOW else true).
+
+Lemma roundtrip c :
+  wf_rt c = true -> exists bs, pack c = Some bs /\ inflate bs = Ok c.
+Proof.
+  unfold wf_rt. intros H. apply andb_prop in H as [H Hport]. apply andb_prop in H as [Hwf Hcc].
+  destruct (pack_verify_fields c Hwf) as (bs & Hp & Hv & Hf & H19 & Hlen & _).
+  exists bs. split; [exact Hp|].
+  unfold inflate. destruct (len bs <? 20) eqn:E0; [lia|]. rewrite H19.
+  unfold inflate_request, inflate_response, inflate_disc_request, inflate_disc_response.
+  rewrite Hv, Hf.
+  unfold is_cc in Hcc.
+  unfold DISCOVER_COMMAND, DISCOVER_COMMAND_RESPONSE, GET_COMMAND, GET_COMMAND_RESPONSE,
+    SET_COMMAND, SET_COMMAND_RESPONSE, ACK_OVERFLOW in *.
+  assert (Hnb : forall x : bool, x || true = true) by (intros; apply orb_true_r).
+  destruct (c_cc c =? 32) eqn:C1; [cbn [orb]; rewrite ?Hnb; cbn [orb]; reflexivity|].
+  destruct (c_cc c =? 48) eqn:C2; [cbn [orb]; rewrite ?Hnb; cbn [orb]; reflexivity|].
+  destruct (c_cc c =? 33) eqn:C3.
+  { cbn [orb] in *. destruct (3 <? c_port c) eqn:P; [lia|]. rewrite ?Hnb; cbn [orb]. reflexivity. }
+  destruct (c_cc c =? 49) eqn:C4.
+  { cbn [orb] in *. destruct (3 <? c_port c) eqn:P; [lia|]. rewrite ?Hnb; cbn [orb]. reflexivity. }
+  destruct (c_cc c =? 16) eqn:C5; [cbn [orb]; reflexivity|].
+  destruct (c_cc c =? 17) eqn:C6; [cbn [orb]; reflexivity|].
+  cbn in Hcc. discriminate.
+Qed.
+
+Lemma cmd_eq_cpp_refl c : cmd_eq_cpp c c = true.
+Proof.
+  unfold cmd_eq_cpp. rewrite !N.eqb_refl. cbn [andb].
+  induction (c_data c) as [|x l IH]; [reflexivity|].
+  cbn [combine forallb fst snd]. rewrite N.eqb_refl. exact IH.
+Qed.
+
+(* ------------------------------------------------------------------ canonical frames re-pack *)
+Lemma list2_of_len {A} (l : list A) : length l = 2%nat -> exists x y, l = [x; y].
+Proof. destruct l as [|x [|y [|z l]]]; try discriminate. eauto. Qed.
+
+Lemma canonical bs c :
+  bytes_ok bs = true -> len bs < 4294967296 ->
+  verify bs = VOk -> fields bs = Some c ->
+  (forall ml pdl, rd bs 1 = Some ml -> rd bs 22 = Some pdl -> ml = 24 + pdl /\ len bs = ml + 1) ->
+  pack c = Some bs.
+Proof.
+  intros Hb Hl Hv Hf Hcanon.
+  destruct (verify_ok bs Hb Hl Hv) as (h & rest & hi & lo & Es & Hssc & Hml & Hmll & Hhi & Hlo & Hck & Hpdl).
+  destruct (split_header_rd _ _ _ Es) as (_ & R1 & R22 & _).
+  destruct (Hcanon _ _ R1 R22) as [Hc1 Hc2].
+  destruct (split_header_some _ _ _ Es) as (Hbs & Ld & Ls & Lsub & Lpid & Hlen).
+  unfold fields in Hf. rewrite Es in Hf.
+  destruct (h_pdl h <=? len rest) eqn:E1; [|discriminate]. inversion Hf; subst c; clear Hf.
+  (* bytes of every header part are < 256 *)
+  assert (Hb' := Hb). rewrite Hbs in Hb'. rewrite !bytes_ok_app in Hb'.
+  repeat (apply andb_prop in Hb' as [? Hb']).
+  assert (Hpdl8 : h_pdl h < 256) by exact (bytes_ok_rd _ _ _ Hb R22).
+  assert (Hml8 : h_ml h < 256) by exact (bytes_ok_rd _ _ _ Hb R1).
+  (* rest = data ++ [hi; lo] *)
+  assert (Hrl : len rest = h_pdl h + 2) by lia.
+  assert (Hdl : len (take (h_pdl h) rest) = h_pdl h) by (apply take_len; lia).
+  assert (exists x y, drop (h_pdl h) rest = [x; y]) as (x & y & Hdrop).
+  { apply list2_of_len. pose proof (drop_len (h_pdl h) rest) as D. rewrite Hrl in D. unfold len in D. lia. }
+  assert (Hrest : rest = take (h_pdl h) rest ++ [x; y]) by (rewrite <- Hdrop; symmetry; apply take_drop).
+  set (data := take (h_pdl h) rest) in *.
+  (* the header re-packs to the same 23 bytes *)
+  assert (Hhdr : header default_opts {| c_dst := be_val (h_dst h); c_src := be_val (h_src h);
+                    c_tn := h_tn h; c_port := h_port h; c_mc := h_mc h; c_sub := be_val (h_sub h);
+                    c_cc := h_cc h; c_pid := be_val (h_pid h); c_data := data |} =
+                 [h_ssc h; h_ml h] ++ h_dst h ++ h_src h ++ [h_tn h; h_port h; h_mc h] ++ h_sub h ++
+                 [h_cc h] ++ h_pid h ++ [h_pdl h]).
+  { unfold header. cbn [default_opts o_ssc o_ml c_dst c_src c_tn c_port c_mc c_sub c_cc c_pid c_data].
+    rewrite Hdl. rewrite <- Ld at 1. rewrite <- Ls at 1. rewrite <- Lsub at 1. rewrite <- Lpid at 1.
+    rewrite !be_bytes_val by assumption.
+    rewrite Hssc. unfold u8, HEADER_SIZE.
+    replace ((23 + h_pdl h + 1) mod 256) with (h_ml h) by lia.
+    replace (h_pdl h mod 256) with (h_pdl h) by lia. reflexivity. }
+  unfold pack, pack_o. cbn [c_data default_opts o_ck]. rewrite Hdl.
+  unfold MAX_PARAM_DATA_LENGTH. destruct (231 <? h_pdl h) eqn:E2; [lia|].
+  rewrite Hhdr.
+  (* the body is the first ml-1 bytes of bs *)
+  set (hb := [h_ssc h; h_ml h] ++ h_dst h ++ h_src h ++ [h_tn h; h_port h; h_mc h] ++ h_sub h ++
+             [h_cc h] ++ h_pid h ++ [h_pdl h]) in *.
+  assert (Hbs2 : bs = (hb ++ data) ++ [x; y]).
+  { rewrite Hbs at 1. rewrite Hrest at 1. unfold hb. rewrite <- !app_assoc. reflexivity. }
+  assert (Hhbl : len (hb ++ data) = h_ml h - 1).
+  { assert (len bs = len (hb ++ data) + 2) as HH by (rewrite Hbs2 at 1; rewrite len_app; cbn; lia). lia. }
+  rewrite <- Hhbl in Hck, Hhi.
+  rewrite Hbs2 in Hck at 1. rewrite take_app_exact in Hck.
+  rewrite Hbs2 in Hhi at 1. rewrite rd_app_r, N.sub_diag in Hhi by lia. cbn in Hhi.
+  rewrite Hbs2 in Hlo at 1. rewrite rd_app_r in Hlo by lia.
+  replace (h_ml h - len (hb ++ data)) with 1 in Hlo by lia. cbn in Hlo.
+  inversion Hhi; inversion Hlo; subst x y.
+  assert (hi < 256 /\ lo < 256) as [Hhi8 Hlo8].
+  { rewrite Hbs2, bytes_ok_app in Hb. apply andb_prop in Hb as [_ Hb2]. cbn in Hb2. unfold byte_ok in Hb2. lia. }
+  rewrite <- Hck. unfold join16.
+  replace ((hi * 256 + lo) / 256) with hi by lia.
+  replace ((hi * 256 + lo) mod 256) with lo by lia.
+  rewrite Hbs2. reflexivity.
+Qed.
+
+(* ------------------------------------------------------------------ request / response matching *)
+Lemma first_failing_none l : first_failing l = None -> forall b st, In (b, st) l -> b = false.
+Proof.
+  induction l as [|[b0 st0] l IH]; intros H b st Hin; [destruct Hin|].
+  cbn [first_failing] in H. destruct b0 eqn:E; [discriminate|].
+  destruct Hin as [Hin|Hin]; [inversion Hin; subst; reflexivity|eauto].
+Qed.
+
+Definition corresponds (rq c : cmd) : Prop :=
+  c_dst c = c_src rq /\ c_src c = c_dst rq /\ c_tn c = c_tn rq /\
+  (c_sub c = c_sub rq \/ c_sub rq = ALL_RDM_SUBDEVICES \/ c_pid rq = PID_QUEUED_MESSAGE) /\
+  (c_cc rq = GET_COMMAND -> c_cc c = GET_COMMAND_RESPONSE \/ c_pid rq = PID_QUEUED_MESSAGE) /\
+  (c_cc rq = SET_COMMAND -> c_cc c = SET_COMMAND_RESPONSE) /\
+  (c_cc rq = DISCOVER_COMMAND -> c_cc c = DISCOVER_COMMAND_RESPONSE).
+
+Lemma match_ok rq bs c :
+  inflate_response (Some rq) bs = Ok c ->
+  corresponds rq c /\ c_port c <= ACK_OVERFLOW /\
+  (c_cc c = DISCOVER_COMMAND_RESPONSE \/ c_cc c = GET_COMMAND_RESPONSE \/ c_cc c = SET_COMMAND_RESPONSE).
+Proof.
+  unfold inflate_response. destruct (verify bs); try discriminate.
+  destruct (fields bs) as [c'|]; try discriminate.
+  destruct (first_failing (match_checks rq c')) eqn:F; try discriminate.
+  destruct (ACK_OVERFLOW <? c_port c') eqn:P; try discriminate.
+  destruct (_ || _) eqn:K; try discriminate.
+  intros H; inversion H; subst c'; clear H.
+  pose proof (first_failing_none _ F) as A. unfold match_checks in A.
+  assert (forall b st, In (b, st) (match_checks rq c) -> b = false) as A' by exact A. clear A.
+  unfold match_checks in A'. cbn [In] in A'.
+  split; [|split; [lia|]].
+  - unfold corresponds. repeat split.
+    + specialize (A' _ _ (or_introl eq_refl)). lia.
+    + specialize (A' _ _ (or_intror (or_introl eq_refl))). lia.
+    + specialize (A' _ _ (or_intror (or_intror (or_introl eq_refl)))). lia.
+    + specialize (A' _ _ (or_intror (or_intror (or_intror (or_introl eq_refl))))). lia.
+    + specialize (A' _ _ (or_intror (or_intror (or_intror (or_intror (or_introl eq_refl)))))). lia.
+    + specialize (A' _ _ (or_intror (or_intror (or_intror (or_intror (or_intror (or_introl eq_refl))))))). lia.
+    + specialize (A' _ _ (or_intror (or_intror (or_intror (or_intror (or_intror (or_intror (or_introl eq_refl)))))))). lia.
+  - lia.
+Qed.
+
+(* the specific status of the first failing check, in the order the property lists them *)
+Lemma match_status rq bs c :
+  verify bs = VOk -> fields bs = Some c ->
+  let r := inflate_response (Some rq) bs in
+  (c_dst c <> c_src rq -> r = Reject RDM_DEST_UID_MISMATCH) /\
+  (c_dst c = c_src rq -> c_src c <> c_dst rq -> r = Reject RDM_SRC_UID_MISMATCH) /\
+  (c_dst c = c_src rq -> c_src c = c_dst rq -> c_tn c <> c_tn rq -> r = Reject RDM_TRANSACTION_MISMATCH) /\
+  (c_dst c = c_src rq -> c_src c = c_dst rq -> c_tn c = c_tn rq ->
+   c_sub c <> c_sub rq -> c_sub rq <> ALL_RDM_SUBDEVICES -> c_pid rq <> PID_QUEUED_MESSAGE ->
+   r = Reject RDM_SUB_DEVICE_MISMATCH) /\
+  (c_dst c = c_src rq -> c_src c = c_dst rq -> c_tn c = c_tn rq ->
+   (c_sub c = c_sub rq \/ c_sub rq = ALL_RDM_SUBDEVICES \/ c_pid rq = PID_QUEUED_MESSAGE) ->
+   ((c_cc rq = GET_COMMAND /\ c_cc c <> GET_COMMAND_RESPONSE /\ c_pid rq <> PID_QUEUED_MESSAGE) \/
+    (c_cc rq = SET_COMMAND /\ c_cc c <> SET_COMMAND_RESPONSE) \/
+    (c_cc rq = DISCOVER_COMMAND /\ c_cc c <> DISCOVER_COMMAND_RESPONSE)) ->
+   r = Reject RDM_COMMAND_CLASS_MISMATCH) /\
+  (corresponds rq c -> ACK_OVERFLOW < c_port c -> r = Reject RDM_INVALID_RESPONSE_TYPE) /\
+  (corresponds rq c -> c_port c <= ACK_OVERFLOW ->
+   c_cc c <> DISCOVER_COMMAND_RESPONSE -> c_cc c <> GET_COMMAND_RESPONSE -> c_cc c <> SET_COMMAND_RESPONSE ->
+   r = Reject RDM_INVALID_COMMAND_CLASS) /\
+  (corresponds rq c -> c_port c <= ACK_OVERFLOW ->
+   (c_cc c = DISCOVER_COMMAND_RESPONSE \/ c_cc c = GET_COMMAND_RESPONSE \/ c_cc c = SET_COMMAND_RESPONSE) ->
+   r = Ok c).
+Proof.
+  intros Hv Hf r. subst r. unfold inflate_response. rewrite Hv, Hf.
+  unfold match_checks, corresponds. cbn [first_failing].
+  unfold ALL_RDM_SUBDEVICES, PID_QUEUED_MESSAGE, GET_COMMAND, GET_COMMAND_RESPONSE, SET_COMMAND,
+    SET_COMMAND_RESPONSE, DISCOVER_COMMAND, DISCOVER_COMMAND_RESPONSE, ACK_OVERFLOW.
+  destruct (c_src rq =? c_dst c) eqn:E1; cbn [negb];
+    [|repeat split; intros; try reflexivity; lia].
+  destruct (c_dst rq =? c_src c) eqn:E2; cbn [negb];
+    [|repeat split; intros; try reflexivity; lia].
+  destruct (c_tn c =? c_tn rq) eqn:E3; cbn [negb];
+    [|repeat split; intros; try reflexivity; lia].
+  destruct (negb (c_sub c =? c_sub rq) && negb (c_sub rq =? 65535) && negb (c_pid rq =? 32)) eqn:E4;
+    [repeat split; intros; try reflexivity; lia|].
+  destruct ((c_cc rq =? 32) && negb (c_cc c =? 33) && negb (c_pid rq =? 32)) eqn:E5;
+    [repeat split; intros; try reflexivity; lia|].
+  destruct ((c_cc rq =? 48) && negb (c_cc c =? 49)) eqn:E6;
+    [repeat split; intros; try reflexivity; lia|].
+  destruct ((c_cc rq =? 16) && negb (c_cc c =? 17)) eqn:E7;
+    [repeat split; intros; try reflexivity; lia|].
+  destruct (3 <? c_port c) eqn:E8;
+    [repeat split; intros; try reflexivity; lia|].
+  destruct ((c_cc c =? 17) || (c_cc c =? 33) || (c_cc c =? 49)) eqn:E9;
+    repeat split; intros; try reflexivity; lia.
+Qed.
